@@ -89,10 +89,11 @@ class ListHarness(Harness):
         inp = {"lines": [], "sugg": self.ob["sugg"], "last_eol": self.ob["last_eol"]}
         for i in range(n):
             full = i in self.ob["full"]
-            d = {"kw": eng.int(f"kw{i}", 0, len(KWS) - 1) if i else self.ob["kw0"], "comment": eng.int(f"cm{i}", 0, len(COMMENT) - 1), "eol": eng.int(f"eol{i}", 0, 1)}
             if n == 3 and i == 1:
                 # the middle line of a 3-line list comes from a reduced menu
                 d = {"kw": eng.int(f"kw{i}", 0, 3), "comment": eng.int(f"cm{i}", 0, 1), "eol": 0}
+            else:
+                d = {"kw": eng.int(f"kw{i}", 0, len(KWS) - 1) if i else self.ob["kw0"], "comment": eng.int(f"cm{i}", 0, len(COMMENT) - 1), "eol": eng.int(f"eol{i}", 0, 1)}
             if full:
                 d.update(indent=eng.int(f"in{i}", 0, len(INDENT) - 1), sep=eng.int(f"sp{i}", 0, len(SEP) - 1), trail=eng.int(f"tr{i}", 0, 1), special=eng.int(f"x{i}", 0, len(SPECIAL) - 1))
                 # a blank/comment-only line has no other parts
